@@ -13,7 +13,7 @@ import common
 import readcheck
 
 LEVEL = "proof"
-CONE = ["Props/C08.v", "Base/Cost.v", "Proofs/CostLeaf.v"]
+CONE = ["Props/C08.v", "Base/Cost.v", "Proofs/CostProps.v", "Proofs/CostOpen.v", "Proofs/CostSample.v", "Proofs/CostLeaf.v", "Proofs/CostLeaf2.v", "Proofs/CostLeaf3.v"]
 
 
 def corpus(rep):
@@ -43,6 +43,7 @@ def corpus(rep):
                 cases.append((n + ":" + lab, {"data": m}))
     for lab, m in readcheck.havoc(frag, rng, 100 if quick else 1000):
         cases.append(("frag:" + lab, {"data": init, "frag": m}))
+    cases += readcheck.trun_bombs(init)
     return cases
 
 
